@@ -4,7 +4,42 @@ import os
 import sys
 
 
+def replay_tmp_reuse(ob):
+    """compositions built with the optional temporary around an operand whose derivative keeps its base point by reference: a derivative must stay valid
+    after a second derivative / an in-place evaluation of the composition reused the temporary"""
+    root = os.environ.get('PYVC_REPO', '/repo')
+    if root not in sys.path:
+        sys.path.insert(0, root)
+    import odl
+    import numpy as np
+    from odl.operator import operator as O
+    rng = np.random.default_rng(9)
+    C = odl.cn(3)
+    M = odl.MatrixOperator(rng.standard_normal((3, 3)) + 1j * rng.standard_normal((3, 3)), domain=C, range=C)
+    for left in (odl.ComplexModulusSquared(C), odl.ComplexModulus(C)):
+        comp = O.OperatorComp(left, M, tmp=C.element())
+
+        def rnd():
+            return C.element(rng.standard_normal(3) + 1j * rng.standard_normal(3))
+        x1, x2, d = rnd(), rnd(), rnd()
+        D1 = comp.derivative(x1)
+        comp.derivative(x2)                      # reuses the temporary
+        comp(x2, out=comp.range.element())       # and so does an in-place evaluation
+        t = 1e-6
+        fd = (comp(x1 + t * d) - comp(x1 - t * d)) / (2 * t)
+        got = D1(d)
+        err = (got - fd).norm() / max(1.0, fd.norm())
+        if err > 1e-5:
+            return {'reproduced': True, 'detail': 'OperatorComp(%s, M, tmp=...): derivative(x1)(d) after a second derivative(x2) and an in-place call differs from central differences at x1, relative error %.3g' % (type(left).__name__, err)}
+    return {'reproduced': False, 'detail': 'derivatives stay valid when the temporary is reused'}
+
+
 def replay(ob):
+    if 'temporary the expression keeps' in ob.get('name', ''):
+        try:
+            return replay_tmp_reuse(ob)
+        except Exception as e:
+            return {'reproduced': False, 'detail': 'replay harness error: %r' % (e,)}
     info = ob.get('info') or {}
     cls = info.get('class')
     root = os.environ.get('PYVC_REPO', '/repo')
